@@ -22,6 +22,16 @@ func init() {
 }
 
 func checkC14(c *Ctx) {
+	// ownership of the shared graph and work-set state
+	c.checkFieldWriters("ownership.field-writers", "internal/mod/mvs", "Graph", map[string][]string{
+		"selected": {"NewGraph", "(*Graph).Require"}, "required": {"NewGraph", "(*Graph).Require"}, "isRoot": {"NewGraph", "(*Graph).Require"},
+		"roots": {"NewGraph"}, "cmp": {"NewGraph"}, "v": {"NewGraph"},
+	})
+	c.checkFieldWriters("ownership.field-writers", "internal/par", "Work", map[string][]string{
+		"added": {"(*Work).Add", "(*Work).init"}, "todo": {"(*Work).Add", "(*Work).runner"}, "waiting": {"(*Work).runner"},
+		"running": {"(*Work).Do"}, "f": {"(*Work).Do"},
+	})
+	c.checkFieldWriters("ownership.field-writers", "internal/par", "cacheEntry", map[string][]string{"result": {"(*Cache).Do"}})
 	c.checkErrorDiscipline("errors.no-new-dropped-error/par", "internal/par", map[string]string{
 	})
 	c.checkErrorDiscipline("errors.no-new-dropped-error/mvs", "internal/mod/mvs", map[string]string{
